@@ -8,14 +8,18 @@ import typing as t
 
 
 def sid_to_bytes(sid: str) -> bytes:
-    sid_pattern = re.compile(r"^S-(\d)-(\d+)(?:-\d+){1,15}$")
-    sid_match = sid_pattern.match(sid)
+    # Only ASCII digits are valid, \d also matches other Unicode digits and
+    # '$' allows a trailing newline so use an explicit set with fullmatch.
+    sid_pattern = re.compile(r"S-([0-9])-([0-9]+)(?:-[0-9]+){1,15}")
+    sid_match = sid_pattern.fullmatch(sid)
     if not sid_match:
         raise ValueError(f"Input string '{sid}' is not a valid SID string")
 
     sid_split = sid.split("-")
     revision = int(sid_split[1])
     authority = int(sid_split[2])
+    if authority >= 2**48:
+        raise ValueError(f"Input string '{sid}' is not a valid SID string, identifier authority is too large")
 
     data = bytearray(authority.to_bytes(8, byteorder="big"))
     data[0] = revision
@@ -23,6 +27,8 @@ def sid_to_bytes(sid: str) -> bytes:
 
     for idx in range(3, len(sid_split)):
         sub_auth = int(sid_split[idx])
+        if sub_auth >= 2**32:
+            raise ValueError(f"Input string '{sid}' is not a valid SID string, sub authority is too large")
         data += sub_auth.to_bytes(4, byteorder="little")
 
     return bytes(data)
